@@ -59,6 +59,7 @@ type c05Lease struct {
 	dead        bool
 	limit       time.Time // issue + effective max as of the last grant
 	ns          string    // namespace the lease lives in ("" = root)
+	role        string    // token role it was created against
 }
 
 func runC05(rc *RunCtx) {
@@ -132,6 +133,25 @@ func runC05(rc *RunCtx) {
 		}
 		return ""
 	}
+	// token roles: unconstrained, with an explicit max, periodic
+	type tokRole struct {
+		name        string
+		explicitMax time.Duration
+		period      time.Duration
+	}
+	tokenRoles := []tokRole{{name: "ra"}, {name: "rb", explicitMax: 2 * time.Hour}, {name: "rc", period: time.Hour}}
+	for _, rl := range tokenRoles {
+		d := map[string]any{"allowed_policies": "p,default", "renewable": true}
+		if rl.explicitMax > 0 {
+			d["token_explicit_max_ttl"] = rl.explicitMax.String()
+		}
+		if rl.period > 0 {
+			d["token_period"] = rl.period.String()
+		}
+		if _, err := h.RootWrite("auth/token/roles/"+rl.name, d); err != nil {
+			panic(err)
+		}
+	}
 	mountMax := map[string]time.Duration{"rec": 0, "authrec": 0, "token": 0}
 	sysMaxFor := func(m string) time.Duration {
 		if v := mountMax[m]; v > 0 {
@@ -156,6 +176,9 @@ func runC05(rc *RunCtx) {
 		exp := now.Add(ttl)
 		l.expire = exp
 		sig := map[string]any{"kind": l.kind, "op": what, "periodic": l.period > 0}
+		if l.role != "" {
+			sig["token_role"] = l.role
+		}
 		if l.period > 0 {
 			if ttl > l.period+slack {
 				viol("ttl-exceeds-period", sig, "%s of %s granted ttl %s, period is %s", what, l.id, ttl, l.period)
@@ -353,14 +376,24 @@ func runC05(rc *RunCtx) {
 			if period > 0 {
 				data["period"] = period.String()
 			}
-			resp, err := h.Do("tcreate", Req{Op: logical.UpdateOperation, Path: "auth/token/create", Token: h.Root, Data: data})
+			// a third of the tokens are created against a token role, whose
+			// explicit max / period combine with the request's: the smaller bound wins
+			createPath, roleName := "auth/token/create", ""
+			if tp.Pick(3) == 0 {
+				rl := tokenRoles[tp.Pick(len(tokenRoles))]
+				createPath, roleName = "auth/token/create/"+rl.name, rl.name
+				delete(data, "period") // (the role's period governs)
+				period = rl.period
+				emx = minPos(emx, rl.explicitMax)
+			}
+			resp, err := h.Do("tcreate", Req{Op: logical.UpdateOperation, Path: createPath, Token: h.Root, Data: data})
 			if err != nil || resp == nil || resp.Auth == nil {
-				note("token create ttl=%s emax=%s period=%s -> error", ttl, emx, period)
+				note("token create %s ttl=%s emax=%s period=%s -> error", roleName, ttl, emx, period)
 				continue
 			}
-			l := &c05Lease{kind: "token", id: resp.Auth.ClientToken, accessor: resp.Auth.Accessor, issue: time.Now(), explicitMax: emx, period: period, mount: "token", renewable: data["renewable"].(bool)}
+			l := &c05Lease{kind: "token", id: resp.Auth.ClientToken, accessor: resp.Auth.Accessor, issue: time.Now(), explicitMax: emx, period: period, mount: "token", renewable: data["renewable"].(bool), role: roleName}
 			leases = append(leases, l)
-			note("token create ttl=%s emax=%s period=%s -> ttl %s", ttl, emx, period, resp.Auth.TTL)
+			note("token create %s ttl=%s emax=%s period=%s -> ttl %s", roleName, ttl, emx, period, resp.Auth.TTL)
 			if !checkGrant(l, resp.Auth.TTL, "create") {
 				return
 			}
